@@ -180,3 +180,57 @@ class GetRange(Contract):
 
 
 fuc('utils.py::InferredGeometry3d.get_range', props=['C08', 'C05'])(GetRange)
+
+
+# ---------------------------------------------------------------------------------------------
+# geometry detection (C09: 2-D detection; C08: irregular sources are left to infer_geometry)
+
+class DetectGeometry(Contract):
+    """detect_geometry: unstructured source with inline/crossline numbers 0 in first and last trace -> 2-D line of tracecount traces;
+    unstructured otherwise -> undecided here (None: geometry is inferred from all headers later); structured source with a single
+    inline or crossline -> 2-D line along the other axis; otherwise the whole regular grid"""
+    kind = 'regular'
+    may_raise = ()
+
+    def inputs(self, c):
+        prog = c.ex.prog
+        me = SObj(prog.klass('SegyConverter'), dict(geom=None))
+        if self.kind in ('2d_headers', 'irregular'):
+            nT = c.sym_int('nT', lo=2, name='source.tracecount')
+            seg = MX.mk_segy(c, 1, nT, 4, two_d=True, nT=nT)
+            seg.fields['nonzero_fields'] = set() if self.kind == '2d_headers' else {189, 193}
+            if self.kind == 'irregular':
+                c.assume(ops_cmp('!=', MX.hsrc(0, 189), 0))
+            d = dict(self=me, seismic=seg, _nT=nT)
+        else:
+            nI = c.sym_int('nI', lo=1, name='source.n_ilines'); nX = c.sym_int('nX', lo=1, name='source.n_xlines')
+            if self.kind == 'one_inline':
+                c.assume(eq(nI, 1), ge(nX, 2))
+            elif self.kind == 'one_crossline':
+                c.assume(eq(nX, 1), ge(nI, 2))
+            else:
+                c.assume(ge(nI, 2), ge(nX, 2))
+            seg = MX.mk_segy(c, nI, nX, 4)
+            d = dict(self=me, seismic=seg, _n=(nI, nX))
+        return d
+
+    def post(self, c, a, result):
+        geom = a['self'].fields.get('geom')
+        cls = geom.cls.name if isinstance(geom, SObj) and geom.cls is not None else None
+        if self.kind == 'irregular':
+            c.ensure(mk_bool(geom is None), 'irregular_source_left_for_infer_geometry')
+        elif self.kind == 'regular':
+            nI, nX = a['_n']
+            c.ensure(mk_bool(cls == 'Geometry3d') and And(eq(geom.fields['ilines'].start, 0), eq(geom.fields['ilines'].stop, nI), eq(geom.fields['xlines'].start, 0), eq(geom.fields['xlines'].stop, nX)), 'whole_regular_grid')
+        else:
+            c.ensure(mk_bool(cls == 'Geometry2d'), 'two_d_line')
+            if cls == 'Geometry2d':
+                tr = geom.fields.get('traces')
+                from pyvc.models import SymSeq
+                n = a['_nT'] if self.kind == '2d_headers' else (a['_n'][1] if self.kind == 'one_inline' else a['_n'][0])
+                ln = tr.length if isinstance(tr, SymSeq) else (len(tr) if isinstance(tr, list) else None)
+                c.ensure(mk_bool(ln is not None) and eq(ln, n), 'one_entry_per_trace_of_the_line')
+
+
+for _k in ('regular', 'one_inline', 'one_crossline', '2d_headers', 'irregular'):
+    fuc('conversion.py::SeismicFileConverter.detect_geometry', props=['C09', 'C08', 'C11'])(type('DetectGeometry_' + _k, (DetectGeometry,), dict(kind=_k, variant=_k)))
